@@ -107,7 +107,7 @@ pub fn run(seed: u64, thorough: bool, out_dir: &Path, scratch: &Path) -> Out {
     let mut cf = CaseFile::new(out_dir, "cases_00", header);
     cf.group("crash", "ccase", "check_ccase");
     let mut descs: BTreeMap<String, Vec<Value>> = BTreeMap::new();
-    let n_hist = if thorough { 24 } else { 3 };
+    let n_hist = hx_common::shard_share(if thorough { 24 } else { 3 });
     let max_points = if thorough { 400 } else { 45 };
     for hi in 0..n_hist {
         // ---- a history with transactions and forks, generated on a scratch node
